@@ -60,4 +60,9 @@ def near_misses(ref, leaves):
         parts = s.split("/")
         out += [s + "/x", "/".join(parts[:-1] + ["zz"]), "/".join(parts[:2] + ["bogus"] + parts[3:]), "x/" + s, s.upper(), s + " "]
     out += ["bla", "", "hamlet//a", "/", "bla/bla/bla"]
+    for s in leaves[:: max(1, len(leaves) // 6)]:
+        parts = s.split("/")
+        for i in range(len(parts)):
+            out.append("/".join(parts[:i] + ["zz8"] + parts[i + 1:]))      # untyped entries that an untypable alternative would glob-match
+            out.append("/".join(parts[:i] + ["bogus"] + parts[i + 1:]))
     return out
